@@ -896,9 +896,12 @@ def c20(run):
             if c == 'parseerr':
                 if so != b'' or not se.startswith(b'Parse error: '):
                     run.fail({'program': src, 'cli_stdout': so[:100].decode('utf-8', 'replace')}, '`rrss parse` accepts a program the library rejects')
-            elif not so.startswith(b'Program {'):
-                run.fail({'program': src, 'cli_stdout': so[:100].decode('utf-8', 'replace'), 'cli_stderr': se[:200].decode('utf-8', 'replace')},
-                         '`rrss parse` does not print the syntax tree of a program the library accepts')
+            else:
+                lib = common.impl(['debugtree ' + hx(src)])[0]
+                if not lib.startswith('ok ') or so != unhx(lib[3:]):
+                    run.fail({'program': src, 'cli_stdout': so[:200].decode('utf-8', 'replace'), 'cli_stderr': se[:200].decode('utf-8', 'replace'),
+                              'library': unhx(lib[3:])[:200].decode('utf-8', 'replace') if lib.startswith('ok ') else lib},
+                             '`rrss parse` does not print the library\'s syntax tree of a program the library accepts')
         # I/O errors of the run itself: standard input that is not valid UTF-8 (at any line), standard output that cannot be
         # written (/dev/full): the library reports them as runtime errors, so must the tool (library vs binary, model-free:
         # the model's protocol carries text only)
